@@ -73,7 +73,7 @@ func loadControls(verif, id string) []control {
 			Also     []string `json:"also_silent_for"`
 			Status   string   `json:"status"`
 		}
-		if json.Unmarshal(b, &meta) != nil || meta.Status == "rejected" {
+		if json.Unmarshal(b, &meta) != nil || meta.Status == "rejected" || meta.Status == "unsupported" {
 			continue
 		}
 		// also_silent_for lists the neighbouring checks (same packages) the refactor was run against when it was
